@@ -65,7 +65,7 @@ Proof.
     unfold outc in *. cbn. unfold updn. destruct (Nat.eqb_spec x tid) as [->|]; [rewrite Et in Ho; discriminate|exact Ho].
   - destruct (g_tasks st tid) eqn:Et; [discriminate|]. injection H as <-.
     unfold outc in *. cbn. unfold updn. destruct (Nat.eqb_spec x tid) as [->|]; [rewrite Et in Ho; discriminate|exact Ho].
-  - assert (Hx : exists a s s', g_tasks st tid = Some (TLoop a s) /\ lstep (c_limit c a) (c_delay c) s t e = Some s' /\
+  - assert (Hx : exists a s s', g_tasks st tid = Some (TLoop a s) /\ lstep (c_limit c a) (c_delay c a) s t e = Some s' /\
                    st' = set_tasks st (updn (g_tasks st) tid (Some (TLoop a s')))).
     { destruct e; try discriminate; destruct (g_tasks st tid) as [[a s|]|]; try discriminate;
         match type of H with context [lstep ?l ?d ?s0 ?t0 ?e0] => destruct (lstep l d s0 t0 e0) as [s'|] eqn:El end;
@@ -438,7 +438,7 @@ Proof.
     + intros a1 x1 x2 s1 s2. unfold updn.
       destruct (Nat.eqb_spec x1 tid); [discriminate|]. destruct (Nat.eqb_spec x2 tid); [discriminate|]. apply H2.
   - (* GLoop *)
-    assert (Hx : exists a s s', g_tasks st tid = Some (TLoop a s) /\ lstep (c_limit c a) (c_delay c) s t e = Some s' /\
+    assert (Hx : exists a s s', g_tasks st tid = Some (TLoop a s) /\ lstep (c_limit c a) (c_delay c a) s t e = Some s' /\
                    e <> LCancel /\ st' = set_tasks st (updn (g_tasks st) tid (Some (TLoop a s')))).
     { destruct e; try discriminate; destruct (g_tasks st tid) as [[a s|]|]; try discriminate;
         match type of H with context [lstep ?l ?d ?s0 ?t0 ?e0] => destruct (lstep l d s0 t0 e0) as [s'|] eqn:El end;
@@ -661,4 +661,17 @@ Proof.
   rewrite Hs. cbn [removen filter app].
   assert (Hd : is_done st tid = true) by (cbn in Ed; rewrite andb_true_r in Ed; exact Ed).
   destruct (errs_of st [tid]) eqn:Ee; intros H; injection H as <-; cbn; rewrite !updn_same; auto.
+Qed.
+
+(* a step of a loop task is a step of the loop transition system under ITS actor's restart limit and
+   restart delay *)
+Lemma loop_step_uses_own_config c st t tid le st' :
+  gstep c st t (GLoop tid le) = Some st' ->
+  exists a s s', g_tasks st tid = Some (TLoop a s) /\ le <> LCancel /\
+                 lstep (c_limit c a) (c_delay c a) s t le = Some s' /\ g_tasks st' tid = Some (TLoop a s').
+Proof.
+  unfold gstep. intros H.
+  destruct le; try discriminate; destruct (g_tasks st tid) as [[a s|]|]; try discriminate;
+    match type of H with context [lstep ?l ?d ?s0 ?t0 ?e0] => destruct (lstep l d s0 t0 e0) as [s'|] eqn:El end;
+    try discriminate; injection H as <-; exists a, s, s'; cbn; rewrite updn_same; repeat split; try discriminate; auto.
 Qed.
